@@ -155,8 +155,10 @@ def jobs(tier):
                 J([[L1, 'pdu1', 'B', 'sym'], [L2, 'pdu1', 'B', 'sym'], [L3, 'pdu1', 'B', 'sym']])
     if not q:
         for combo in [(8,) * 8, (8, 8, 8, 8, 8, 8, 8, 4), (20, 20, 20, 20), (1,) * 12, (60, 60, 60), (5, 50, 5, 50), (30, 28, 8, 8, 8)]:
-            J([[L, 'pdu1', 'B', 'sym'] for L in combo])
-            J([[L, 'pdu1', 'B' if i % 2 else 'C', 'sym'] for i, L in enumerate(combo)])
+            # long sequences: symbolic limits for the first four groups, a concrete mix for the others
+            lim = lambda i: 'sym' if (i < 4 or len(combo) <= 5) else ['1/20', '1/100', '1/10', '3/100', '1/5'][i % 5]
+            J([[L, 'pdu1', 'B', lim(i)] for i, L in enumerate(combo)])
+            J([[L, 'pdu1', 'B' if i % 2 else 'C', lim(i)] for i, L in enumerate(combo)])
     return out
 
 
